@@ -1253,6 +1253,20 @@ pub fn run(ctx: &Ctx) -> Outcome {
         per.push(json!({"scenario": s.name(), "depth": depth, "states": st.states, "transitions": st.transitions, "depth_completed": st.depth_completed, "terminal_states": st.terminal_states, "frontier": st.frontier_sizes}));
         total.merge(&st);
     }
+    // a big swarm: 15 connections, 10..13 of them interesting, when a tracker answer arrives (the
+    // dial budget of 11 is then exhausted or exceeded): the session must survive and go on (the
+    // scenario is C19's budget case, judged here as 'the session does not crash or hang')
+    {
+        let dir = core::private_cwd("c02", "budget");
+        for j in [10usize, 11, 12, 13] {
+            let (_, v) = crate::c19::budget_case(&dir, j, &[], false);
+            match v {
+                Some(("MACHINERY", why)) => ctx.machinery_error(why),
+                Some((class, why)) => ctx.violation(class, format!("[big swarm, {} interesting connections] {}", j, &why[..why.len().min(400)]), json!({"scenario": "big-swarm", "kind": "budget", "interesting": j})),
+                None => per.push(json!({"scenario": format!("big-swarm-{}-interesting", j), "completed": true})),
+            }
+        }
+    }
     let (unseamed, unseamed_rows) = unseamed_part(ctx);
     let mut o = Outcome::new("model_checking");
     explore::stats_outcome(&total, &mut o);
@@ -1267,6 +1281,17 @@ pub fn run(ctx: &Ctx) -> Outcome {
 
 pub fn replay(_ctx: &Ctx, r: &Value) -> i32 {
     let name = r["scenario"].as_str().unwrap();
+    if r["kind"] == "budget" {
+        let dir = core::private_cwd("c02", "replay");
+        let (_, v) = crate::c19::budget_case(&dir, r["interesting"].as_u64().unwrap() as usize, &[], true);
+        return match v {
+            None => 0,
+            Some((class, why)) => {
+                println!("VIOLATION property=C02 replay=<this file>\n  class={} {}", class, why);
+                1
+            }
+        };
+    }
     if r["kind"] == "bigpiece" {
         let dir = core::private_cwd("c02", "replay");
         return match big_piece_run(&dir) {
